@@ -8,7 +8,7 @@ from ..report import h64
 from ..worker import handle_crash
 
 PROPERTY = "C09"
-RULE = ("the C08 triples plus malformed contents (missing / ill-typed membership, "
+RULE = ("the C08 triples (product families and the random rooms / events family) plus malformed contents (missing / ill-typed membership, "
         "third_party_invite without signed / token, invalid authorising user). For each: (1) "
         "auth_types_for_event must equal the spec's auth-event selection as a set (or both report "
         "malformed content); (2) read-set monitor: every (type, state_key) that auth_check asks its "
@@ -97,7 +97,8 @@ def shard(ctx):
     rng = ctx.rng
     w = ctx.worker("rel")
     nper = 3 if ctx.tier == "quick" else 5
-    fams = authgen.all_families() + [("selection-extras", selection_extras)]
+    fams = authgen.all_families() + [("selection-extras", selection_extras),
+                                     ("random", authgen.random_family(ctx.seed, 15000 if ctx.tier == "quick" else 300000))]
     for fname, fam in fams:
         batch = []
 
